@@ -147,6 +147,8 @@ def usize(lo, hi=None):
 def join(a, b):
     if a is b:
         return a
+    if type(a) is Fl and type(b) is Fl and a == b:
+        return a
     if a is None:
         return b
     if b is None:
@@ -186,7 +188,7 @@ def widen(a, b, lm):
     """a: previous, b: new contribution"""
     if a is None:
         return b
-    if b is None:
+    if b is None or a is b:
         return a
     ta, tb = type(a), type(b)
     if ta is not tb:
@@ -349,6 +351,10 @@ class Interp:
             return Top(c["ty"])
         if "fn" in c:
             return Ax("fn", (c["fn"].get("key") or c["fn"].get("shown"), FnRef(c["fn"])))
+        if c.get("val"):
+            v = self.decode_val(c["val"])
+            if v is not None:
+                return v
         if "static" in c:
             s = self.F.statics.get(c["static"])
             if s and "float_bits" in s:
@@ -364,6 +370,28 @@ class Interp:
         if "str" in c:
             return Ax("str", (c["str"],))
         return Top(c["ty"])
+
+    def decode_val(self, d):
+        """Typed constant memory decoded by the extractor -> abstract value"""
+        if not d:
+            return None
+        k = d["k"]
+        if k == "scalar":
+            return self.const({"ty": d["ty"], "bits": d["bits"], "k": "const"}, None)
+        if k == "ref":
+            inner = self.decode_val(d.get("to"))
+            return Rf(None, inner if inner is not None else Top(), False)
+        if k == "struct":
+            fs = [self.decode_val(f) for f in d["fields"]]
+            return St(d["ty"], [f if f is not None else Top() for f in fs])
+        if k == "array":
+            e = None
+            for x in d["elems"]:
+                v = self.decode_val(x)
+                v = v if v is not None else Top()
+                e = v if e is None else join(e, v)
+            return Vc(e if e is not None else Top(), usize(len(d["elems"])))
+        return None
 
     # ------------------------------------------------------------------ places
     def resolve(self, st, fid, pl):
@@ -865,6 +893,10 @@ class Interp:
         k = origin[0]
         if k == "not":
             return self.refine(st, origin[1], not truth, stamp)
+        if k == "and":
+            if truth:
+                return self.refine(st, origin[1], True, stamp) and self.refine(st, origin[2], True, stamp)
+            return True
         if k == "cmp":
             _, op, (pa, a), (pb, b) = origin
             for (pl, x, y, o) in ((pa, a, b, op), (pb, b, a, {"lt": "gt", "le": "ge", "gt": "lt", "ge": "le", "eq": "eq", "ne": "ne"}[op])):
@@ -1185,8 +1217,11 @@ class Interp:
         # 2. crate-local (and serialised shim / whitelisted core) bodies are analysed in place
         if callee is not None and callee.get("full") and (self.inline_pred is None or self.inline_pred(callee)):
             args2 = args
-            if callee.get("kind") in ("fnptr_shim", "closure_once_shim") or (callee["path"].startswith("core::ops::function::") and False):
-                pass
+            if "closure_of" in callee and len(args) == 2:
+                # closure bodies are invoked with the rust-call convention: (env, (a, b, ..)) -> env, a, b, ..
+                tup = self.materialize(args[1])
+                if isinstance(tup, St):
+                    args2 = [args[0]] + list(tup.fields)
             rv, st2 = self.run_fn(callee, args2, st, (inst["key"], bi))
             if st2 is None:
                 return DIVERGE
